@@ -88,4 +88,21 @@ CHECKS['C16'] = {'engine': 'E-C', 'technique': 'fault enumeration of every crash
     'text': 'Crash: a definition is killed before each interposed file-system step and after each character of each write from several initial cache states; from every distinct resulting directory a fresh process defines the same, the same-length sibling and another declaration: it must succeed and behave per its own declaration. Interleavings: all schedules of two concurrently defining processes (identical, same-length, different declarations; several initial cache states; bytecode on/off; one clock tick anywhere) covered by DFS with a visited set keyed by (directory contents+mtimes, clock, per process pc + digest of observations); violating crash states are re-run with a real interpreter; the first violating schedule per signature and two passing schedules per pair are replayed by two real interpreter processes held to the recorded step order (a divergence is a harness failure). File objects are explored in three models: every write() visible at once, a 512-character buffer, and buffered until close() with a kill after every character.',
     'note': 'close() is a step only in the buffered models; steps on a file whose name carries the writing thread id are not choice points unless a directory listing occurred (they commute); 2 processes, <=1 clock tick; schedule cap reported in the evidence (exhaustive=false when hit).'}
 
+# extensions of the eleventh and twelfth wave of seeded changes (DESIGN.md 10.5)
+_ADDED = {
+    'C02': 'Also every declaration with class options of C01 (byte order, alignment, search window 0/2/3), and nested pack() calls: a described length and checksum computed by serializing the sub-packet, flat / held / in a list.',
+    'C03': 'Several described fields per class; variable-size byte strings get well-typed changes of length after parsing.',
+    'C07': 'Several runs per class separated by an integer / delimited string / list (every run walks its patterns while the others hold 00/ff/a5); runs that are not multiples of 8 although the class total is must be rejected.',
+    'C08': 'For purely sequential declarations pack() of the parsed packet must be exactly the consumed bytes (absent optionals and empty lists emit nothing, present ones - 0 and b"" included - emit their bytes); selectors whose alternatives differ only in sign / byte order / delimiter handling.',
+    'C09': 'Constants of every kind (tuples of length 0..3, None, float, text, empty/non-empty strings and lists) as operand, option and indexed; what Python\'s own dispatch folds or refuses before bisturi sees it is counted as not expressible.',
+    'C13': 'Plus scenarios user-descriptor (a user-written descriptor with an after-parsing hook) and factory-siblings (three same-named classes from one class statement that share one cached module).',
+    'C14': 'One prefixed input per case also as a bytes subclass and as the file-backed bisturi.util.SeekableFile; every integer width 1..9 in every byte-order spelling, signed and unsigned, as the last field.',
+    'C15': 'Further passes: field names beyond ascii; two declarations from one class statement with textually identical generated code; all sequences of 5 (thorough 6) definitions of three declarations within one process that meets a filled cache.',
+    'C16': 'Every file-system step is also made to FAIL; a reduced exploration under python -O; all sequences of 2..3 (thorough 4) real interpreter processes in which a later one runs with -W error.',
+    'C18': 'Truth-valued sizes (found F12); ONE pattern object whose fields are fixed, relaxed to Any() and fixed again one by one, filter() compared with and without the pre-filter after every change; two threads deriving expressions under all schedules with <=1 (thorough 2) preemptions.',
+}
+for _k, _v in _ADDED.items():
+    CHECKS[_k]['text'] += ' ' + _v
+CHECKS['C16']['note'] += ' Each of the two processes makes ONE definition (a defect that needs several definitions in one process while another writes is left to the sequential histories of C15, see seeded C16l).'
+
 NOT_APPLICABLE = {}
